@@ -274,10 +274,10 @@ Proof. intros. unfold serving, serving_st, mode_is, observe; cbn. destruct (r s)
 Lemma is_open_obs : forall s x, is_open (observe s x) = match r s with Some _ => true | None => false end.
 Proof. intros. unfold is_open, observe; cbn. destruct (r s); reflexivity. Qed.
 
-Lemma c17_eng_model : forall s x0 o,
-  c17_eng (observe s x0) o (observe (fst (step s o)) (snd (step s o))) = true.
+Lemma c17_eng0_model : forall s x0 o,
+  c17_eng0 (observe s x0) o (observe (fst (step s o)) (snd (step s o))) = true.
 Proof.
-  intros s x0 o. destruct o; cbn [c17_eng]; auto.
+  intros s x0 o. destruct o; cbn [c17_eng0]; auto.
   - (* open of an open replica *)
     rewrite is_open_obs. destruct (r s) eqn:Hr; [|reflexivity].
     cbn [step]. rewrite Hr. cbn [fst snd ores observe is_ok res_eqb negb andb]. apply unchanged_refl.
@@ -310,8 +310,38 @@ Proof.
   - (* failed open *)
     cbn [step fst snd ores observe is_ok res_eqb negb andb]. apply unchanged_refl.
   - (* failed close *)
-    cbn [c17_eng step]. destruct (r s) as [z|] eqn:Hr; cbn [fst snd set_r];
+    cbn [step]. destruct (r s) as [z|] eqn:Hr; cbn [fst snd set_r];
       unfold serving, mode_is, observe; cbn; rewrite ?Hr; reflexivity.
+Qed.
+
+Lemma c17_status_model : forall s x0 o,
+  c17_status (observe s x0) o (observe (fst (step s o)) (snd (step s o))) = true.
+Proof.
+  intros s x0 o. unfold c17_status.
+  destruct (keeps_rebuild o) eqn:Hk; [|reflexivity].
+  cbn [andb]. unfold observe at 1; cbn [ostate].
+  destruct (rstate_eqb (state s) SRebuilding) eqn:Hst; [|reflexivity].
+  cbn [andb].
+  assert (Hreb : exists x, r s = Some x /\ irebuild x = true).
+  { unfold state in Hst. destruct (r s) as [x|].
+    - exists x. split; [reflexivity|]. destruct (irebuild x); [reflexivity|].
+      destruct (idirty x); discriminate.
+    - destruct (present s); discriminate. }
+  destruct Hreb as [x [Hr Hreb]].
+  destruct o; try discriminate Hk;
+    cbn [step]; unfold with_rep; rewrite ?Hr;
+    repeat match goal with
+    | |- context [match rmode x with _ => _ end] => destruct (rmode x)
+    | |- context [match ?m with INIT => _ | _ => _ end] => destruct m
+    | |- context [if present s then _ else _] => destruct (present s)
+    end;
+    cbn [fst snd set_r]; unfold is_open, observe, state; cbn; rewrite ?Hr; cbn; rewrite ?Hreb; reflexivity.
+Qed.
+
+Lemma c17_eng_model : forall s x0 o,
+  c17_eng (observe s x0) o (observe (fst (step s o)) (snd (step s o))) = true.
+Proof.
+  intros s x0 o. unfold c17_eng. rewrite c17_eng0_model, c17_status_model. reflexivity.
 Qed.
 
 Lemma c17_step_model : forall s x0 t,
